@@ -1,0 +1,167 @@
+//go:build verif
+
+// Package verifhook is the trace / gate facility used by the verification hooks.
+// It is only built with the "verif" build tag; no production file imports it.
+//
+// Events are written one JSON object per line with a per-process sequence number
+// that is assigned and written under one mutex, so the order of the lines is the
+// order in which the hooks ran.  Gates ("points") let a test harness hold a
+// goroutine at a named place in order to reach a particular schedule.
+package verifhook
+
+import (
+	"encoding/json"
+	"os"
+	"strconv"
+	"strings"
+	"sync"
+	"time"
+)
+
+var (
+	mu    sync.Mutex // orders events; also held across Begin/End pairs
+	seq   int
+	sink  func(line []byte)
+	gmu   sync.Mutex
+	gates = map[string]func(){}
+
+	delays map[string]time.Duration
+	prefix = "@@VERIF "
+)
+
+func init() {
+	// processes that cannot be configured by function calls (the container init)
+	// are configured by environment: VERIF_EVENTS=stderr, VERIF_DELAYS=name=ms,name=ms
+	if os.Getenv("VERIF_EVENTS") == "stderr" {
+		sink = func(line []byte) {
+			b := make([]byte, 0, len(prefix)+len(line)+1)
+			b = append(b, prefix...)
+			b = append(b, line...)
+			b = append(b, '\n')
+			os.Stderr.Write(b)
+		}
+	}
+	if d := os.Getenv("VERIF_DELAYS"); d != "" {
+		delays = map[string]time.Duration{}
+		for _, kv := range strings.Split(d, ",") {
+			if k, v, ok := strings.Cut(kv, "="); ok {
+				if ms, err := strconv.Atoi(v); err == nil {
+					delays[k] = time.Duration(ms) * time.Millisecond
+				}
+			}
+		}
+	}
+}
+
+// SetSink installs the event sink (nil disables events).
+func SetSink(f func(line []byte)) {
+	mu.Lock()
+	sink = f
+	mu.Unlock()
+}
+
+// Enabled tells whether events are being recorded.
+func Enabled() bool {
+	mu.Lock()
+	defer mu.Unlock()
+	return sink != nil
+}
+
+func emit(side, name string, kv []any) {
+	if sink == nil {
+		return
+	}
+	seq++
+	m := make(map[string]any, len(kv)/2+3)
+	m["seq"] = seq
+	m["side"] = side
+	m["ev"] = name
+	for i := 0; i+1 < len(kv); i += 2 {
+		if k, ok := kv[i].(string); ok {
+			m[k] = kv[i+1]
+		}
+	}
+	b, err := json.Marshal(m)
+	if err != nil {
+		b = []byte(`{"ev":"marshal-error"}`)
+	}
+	sink(b)
+}
+
+// Event records one event: side ("host", "init", "tracer", ...), name, key/value pairs.
+func Event(side, name string, kv ...any) {
+	mu.Lock()
+	emit(side, name, kv)
+	mu.Unlock()
+}
+
+// Begin takes the event lock so that an operation and its event are recorded atomically
+// with respect to every other event of this process; must be followed by End.
+func Begin() { mu.Lock() }
+
+// End records the event of the operation started with Begin and releases the lock.
+func End(side, name string, kv ...any) {
+	emit(side, name, kv)
+	mu.Unlock()
+}
+
+// SetGate installs f to be called whenever Point(name) is reached (nil removes it).
+func SetGate(name string, f func()) {
+	gmu.Lock()
+	if f == nil {
+		delete(gates, name)
+	} else {
+		gates[name] = f
+	}
+	gmu.Unlock()
+}
+
+// ClearGates removes all gates.
+func ClearGates() {
+	gmu.Lock()
+	gates = map[string]func(){}
+	gmu.Unlock()
+}
+
+// Point is a named place where a harness may hold the calling goroutine.
+func Point(name string) {
+	gmu.Lock()
+	f := gates[name]
+	gmu.Unlock()
+	if f != nil {
+		f()
+		return
+	}
+	if d, ok := delays[name]; ok {
+		time.Sleep(d)
+	}
+}
+
+// ChildEnv returns the environment entries that configure a child process
+// (the container init) the same way as this one: taken from VERIF_CHILD_EVENTS and
+// VERIF_CHILD_DELAYS of the current process or from SetChildEnv.
+var childEnv []string
+
+// SetChildEnv sets the entries returned by ChildEnv.
+func SetChildEnv(env []string) {
+	gmu.Lock()
+	childEnv = env
+	gmu.Unlock()
+}
+
+// ChildEnv returns extra environment for hooked child processes.
+func ChildEnv() []string {
+	gmu.Lock()
+	defer gmu.Unlock()
+	if childEnv != nil {
+		return childEnv
+	}
+	var e []string
+	if v := os.Getenv("VERIF_CHILD_EVENTS"); v != "" {
+		e = append(e, "VERIF_EVENTS="+v)
+	}
+	if v := os.Getenv("VERIF_CHILD_DELAYS"); v != "" {
+		e = append(e, "VERIF_DELAYS="+v)
+	}
+	return e
+}
